@@ -1,6 +1,7 @@
 """C03 — replay fidelity (structural clauses)."""
 import re
 
+from .common import run_session_body
 from ..core import CheckError, op_const, op_place
 from .c01 import ok_edge_of_try
 from ..prov import reads_locals, sources
@@ -82,7 +83,7 @@ def run(ctx):
                                                 'modified after construction (`%s`, line %s): log, sidecar and live stream no longer carry the same frame' % (muts[0][1], muts[0][0])), line=s.line)
 
     # ---------------------------------------------------------------- C03.3
-    rs = P.body('ripd::session::run_session')
+    rs = run_session_body(P)
     snaps = rs.calls(r'^rip_log::write_snapshot$')
     ctx.floor('C03.3', 'write_snapshot in run_session', len(snaps), 1)
     emits = rs.calls(r'^ripd::session::emit_event$|^ripd::session::emit_events$')
